@@ -530,3 +530,88 @@ def rule_homogeneous(model: Model, short: str):
         elif isinstance(n, ast.BinOp) and isinstance(n.op, (ast.Add, ast.Sub)):
             judge(n, [n.left, n.right], "sum")
     return obs
+
+
+# --------------------------------------------------------------------------- TRAIN-INIT (added after seed S5-C13-2)
+
+def rule_train_init(model: Model, fshort: str, rule="TRAIN-INIT"):
+    """The sweeps type every core of a train by its rank list: `X[k] = reshape(.., [R[k], n, R[k+1]])`.  Wherever the core list X of such a
+    train is *taken over from an object* (`X = g.cores[.copy()]`, the initial guess), the rank list R that types it has to be taken from the
+    same object in the same branch (`R = g.R[.copy()]`) - otherwise the first reshape of the sweep uses ranks that do not describe the cores
+    (a RuntimeError, or silently re-grouped data when the element counts happen to agree).  One obligation per take-over."""
+    import ast
+    from .model import norm, call_args
+    f = _view(model, fshort)
+    trains = {}
+    for n in ast.walk(f.node):
+        if isinstance(n, ast.Assign) and len(n.targets) == 1 and isinstance(n.targets[0], ast.Subscript) and isinstance(n.targets[0].value, ast.Name) \
+                and isinstance(n.value, ast.Call) and call_args(n.value, "reshape") and len(call_args(n.value, "reshape")) == 2 \
+                and isinstance(call_args(n.value, "reshape")[1], ast.List):
+            elts = call_args(n.value, "reshape")[1].elts
+            if len(elts) >= 3 and isinstance(elts[0], ast.Subscript) and isinstance(elts[-1], ast.Subscript) and isinstance(elts[0].value, ast.Name) \
+                    and isinstance(elts[-1].value, ast.Name) and elts[0].value.id == elts[-1].value.id:
+                trains.setdefault(n.targets[0].value.id, elts[0].value.id)
+    obs = []
+
+    def source(v, attr):
+        """the object name g when v is g.<attr>, g.<attr>.copy(), list(g.<attr>), g.<attr>[:] ; else None"""
+        while True:
+            if isinstance(v, ast.Call) and isinstance(v.func, ast.Attribute) and v.func.attr in ("copy",) and not v.args:
+                v = v.func.value
+            elif isinstance(v, ast.Call) and isinstance(v.func, ast.Name) and v.func.id == "list" and len(v.args) == 1:
+                v = v.args[0]
+            elif isinstance(v, ast.Subscript) and isinstance(v.slice, ast.Slice) and v.slice.lower is None and v.slice.upper is None:
+                v = v.value
+            else:
+                break
+        if isinstance(v, ast.Attribute) and v.attr == attr and isinstance(v.value, ast.Name):
+            return v.value.id
+        return None
+
+    def pairs(stmt):
+        """[(target name, value)] of a (tuple) assignment"""
+        if not isinstance(stmt, ast.Assign) or len(stmt.targets) != 1:
+            return []
+        t, v = stmt.targets[0], stmt.value
+        if isinstance(t, ast.Name):
+            return [(t.id, v)]
+        if isinstance(t, (ast.Tuple, ast.List)) and isinstance(v, (ast.Tuple, ast.List)) and len(t.elts) == len(v.elts):
+            return [(x.id, y) for x, y in zip(t.elts, v.elts) if isinstance(x, ast.Name)]
+        return []
+
+    def blocks(node):
+        for n in ast.walk(node):
+            for fld in ("body", "orelse", "finalbody"):
+                b = getattr(n, fld, None)
+                if isinstance(b, list) and b and isinstance(b[0], ast.stmt):
+                    yield b
+    for blk in blocks(f.node):
+        for st in blk:
+            for nm, v in pairs(st):
+                if nm in trains:
+                    g = source(v, "cores")
+                    if g is None:
+                        continue
+                    # only objects that come from outside: a parameter, or a local that is a plain copy of one (`x = x0`)
+                    origin = g
+                    for _ in range(3):
+                        defs = [a.value for a in ast.walk(f.node) if isinstance(a, ast.Assign) and len(a.targets) == 1 and isinstance(a.targets[0], ast.Name)
+                                and a.targets[0].id == origin]
+                        names = [d.id for d in defs if isinstance(d, ast.Name)]
+                        if origin in f.params() or not names:
+                            break
+                        origin = next((x for x in names if x in f.params()), names[0])
+                    if origin not in f.params():
+                        continue
+                    R = trains[nm]
+                    got = [source(v2, "R") for s2 in blk for n2, v2 in pairs(s2) if n2 == R]
+                    k = f"{fshort}:{rule}:{nm}<-{g}.cores"
+                    if g in got:
+                        obs.append(Ob(rule, k, OK, model.where(f, st), norm(st)[:80], f"cores and ranks of the train ({nm}, {R}) are both taken from `{g}`"))
+                    else:
+                        obs.append(Ob(rule, k, VIOLATED, model.where(f, st), norm(st)[:80],
+                                      f"the cores `{nm}` are taken over from `{g}`, but the rank list `{R}` that types them in the sweeps "
+                                      f"(`{nm}[k] = reshape(.., [{R}[k], n, {R}[k+1]])`) is not taken from `{g}.R` in the same branch"
+                                      + (f" (it is bound from {[x for x in got if x]})" if any(got) else "")
+                                      + f": with a guess whose ranks differ from the default the first reshape of the sweep fails or re-groups the data"))
+    return obs
